@@ -109,7 +109,7 @@ def det_worker(args):
                 if cat is not None or not opts.get("extend") or rng.random() >= opts["extend"] or res["findings"] or res["rejected"]:
                     break
                 proc = rd.extra_process(rng, defn)
-                route = rng.choice(build.valid_routes(proc))
+                route = build.pick_add_route(rng, proc)
                 try:
                     if route == "ODE":
                         from pygom import Transition
